@@ -28,6 +28,10 @@ package writer
 //@     ghostset ghost(0, "bulkItems") = ghost(0, "bulkItems") + 1
 //@   site mapupdate response["items"] #1:
 //@     assert [one-item-per-action] ghost(0, "bulkItems") == inCount
+// the end of the body (an empty line with nothing after it, e.g. a blank last
+// line) is not an action: nothing is classified, counted or answered for it
+//@   site call ExtractIndexAndValidateAction #1:
+//@     assert [the-end-of-the-body-is-not-an-action] len(line) > 0 || len(remainingPostBody) > 0
 // C13 (documents of one organisation never land in another organisation's
 // store): the index-name -> stream-id cache is keyed by the bare index name, and
 // a stream id embeds the organisation; a hit is used without looking at the
@@ -41,7 +45,7 @@ package writer
 //@     assert [a-kibana-item-is-stored-only-under-a-validated-index-name] uf("safeName", bool, indexName)
 //@   site call ProcessIndexRequestPle #1:
 //@     assert [stream-id-cache-is-private-to-this-request] fresh(idxToStreamIdCache) && arg4 == myid
-//@   bounded eswriter/bulkerrors_test.go Test_Bounded_BulkErrorsFlag every sequence of at most 3 actions over 8 kinds of item (good document, unsupported action, oversize document, malformed document, unsafe index name; as last action also: truncated document, missing document line, unsupported action without newline) through the real handler (248 bodies): one item per action, each item failed/created as its kind demands, errors true iff some item failed
+//@   bounded eswriter/bulkerrors_test.go Test_Bounded_BulkErrorsFlag every sequence of at most 3 actions over 8 kinds of item (good document, unsupported action, oversize document, malformed document, unsafe index name; as last action also: truncated document, missing document line, unsupported action without newline) through the real handler, bodies that end in a newline also with a blank last line (434 bodies): one item per action, each item failed/created as its kind demands, errors true iff some item failed
 //@ end
 
 // C15 (one item per action, an unknown action affects only its own item): the
